@@ -26,13 +26,29 @@ def run(tree, quiet=False):
     fd, xml = tempfile.mkstemp(suffix='.xml')
     os.close(fd)
     try:
-        r = subprocess.run(['/venv/bin/python', '-m', 'pytest', '-q', '-p', 'no:cacheprovider', '--timeout=900',
-                            '--continue-on-collection-errors', '-n', '8', '--junitxml=' + xml],
-                           cwd=tree, env=env, stdout=subprocess.PIPE, stderr=subprocess.STDOUT, text=True)
+        # a mutant may make a test spin inside compiled code, where pytest's own timeout cannot interrupt it
+        p = subprocess.Popen(['/venv/bin/python', '-m', 'pytest', '-q', '-p', 'no:cacheprovider', '--timeout=900',
+                              '--continue-on-collection-errors', '-n', '8', '--junitxml=' + xml],
+                             cwd=tree, env=env, stdout=subprocess.PIPE, stderr=subprocess.STDOUT, text=True,
+                             start_new_session=True)
+        try:
+            out, _ = p.communicate(timeout=int(os.environ.get('BASELINE_TIMEOUT', '600')))
+        except subprocess.TimeoutExpired:
+            import signal
+            os.killpg(p.pid, signal.SIGKILL)
+            out, _ = p.communicate()
+            out = (out or '') + '\nBASELINE TIMEOUT: test run killed\n'
+
+        class R:
+            stdout = out
+        r = R()
         passed = set()
-        for tc in ET.parse(xml).getroot().iter('testcase'):
-            if not any(c.tag in ('failure', 'error', 'skipped') for c in tc):
-                passed.add(tc.get('classname') + '::' + tc.get('name'))
+        try:
+            for tc in ET.parse(xml).getroot().iter('testcase'):
+                if not any(c.tag in ('failure', 'error', 'skipped') for c in tc):
+                    passed.add(tc.get('classname') + '::' + tc.get('name'))
+        except ET.ParseError:
+            pass
     finally:
         os.unlink(xml)
     stable = json.load(open('/root/.vp/BASELINE.json'))['stable_pass']
